@@ -155,6 +155,8 @@ func c17(w *core.World, r *core.Report) {
 	r.Rule("R06.10", "a full resynchronisation does not carry the target's old position over to the new replication id (shared with C06)", 2)
 	r.Rule("R06.14", "a granted continuation keeps the position the target holds: the output is told to drop it only on a full resynchronisation (shared with C06)", 1)
 	ruleSyncMetaPaths(w, r)
+	r.Rule("R06.12", "the start-up maintenance answers the run id it left the checkpoint under: configured with another id the output never moves the record, and the position is lost once the source stops reporting the old id (shared with C06; seed C17-14)", 2)
+	ruleStartupKeepsCheckpointId(w, r)
 }
 
 func ruleStaleGC(w *core.World, r *core.Report) {
